@@ -16,6 +16,10 @@ def templates(tier, seed):
         for fx in ((), ("validate_eager", "validate_eager"), ("validate_lazy", "validate_eager"), ("validate_eager", "statistics")):
             ts.append(Template(f"{variant}/k={len(fx) or 1}/N=2" + ("/" + ">".join(fx) if fx else ""), t_hist, (variant, len(fx) or 1, 2, ["validate_eager", "validate_lazy", "repr", "deepcopy"], fx),
                                max_paths=30000, budget_s=100 if tier == "quick" else 1200))
+    # check statistics that are lists of date-time values, through the serialisers and the statistics code
+    dt_ops = ["to_yaml", "to_json", "to_script", "statistics", "validate_lazy", "repr", "eq", "deepcopy"]
+    for a in dt_ops:
+        ts.append(Template(f"datetime_stats/k=2/N=1/{a}", t_hist, ("datetime_stats", 2, 1, dt_ops, (a,)), max_paths=30000, budget_s=100 if tier == "quick" else 1200))
     for variant in ("regex", "dtype", "plain"):
         for k in ((1, 2) if tier == "quick" else (1, 2, 3)):
             N = 1 if k > 1 else 2
